@@ -5,7 +5,7 @@ use crate::transaction::{ActionID, MIDGenerator};
 use crate::{
     message::{FindNodeRequest, Message, MessageBody, Request},
     socket::Socket,
-    timer::Timer,
+    timer::{Timeout, Timer},
 };
 use std::{
     sync::{Arc, Mutex},
@@ -19,6 +19,8 @@ pub(crate) struct TableRefresh {
     table: Arc<Mutex<RoutingTable>>,
     id_generator: MIDGenerator,
     curr_refresh_bucket: usize,
+    // The timeout scheduled for the next round, if any.
+    next_round: Option<Timeout>,
 }
 
 impl TableRefresh {
@@ -27,6 +29,7 @@ impl TableRefresh {
             table,
             id_generator,
             curr_refresh_bucket: 0,
+            next_round: None,
         }
     }
 
@@ -103,8 +106,14 @@ impl TableRefresh {
             }
         }
 
-        // Start a timer for the next refresh
-        timer.schedule_in(REFRESH_INTERVAL_TIMEOUT, ScheduledTaskCheck::TableRefresh);
+        // Start a timer for the next refresh. This function is also called on every transition to
+        // the bootstrapped state: drop the round that is already scheduled, otherwise every
+        // re-bootstrap would add one more self-perpetuating refresh chain.
+        if let Some(scheduled) = self.next_round.take() {
+            timer.cancel(scheduled);
+        }
+        self.next_round =
+            Some(timer.schedule_in(REFRESH_INTERVAL_TIMEOUT, ScheduledTaskCheck::TableRefresh));
 
         self.curr_refresh_bucket += 1;
     }
